@@ -199,6 +199,10 @@ def run_case(tape, tier):
             if got["framing"] == "close" and not (j == len(expected) - 1 and want_eof):
                 problem = ("framing-not-self-delimiting", "response %d is delimited only by connection close but its request was persistent" % j, j)
                 break
+            if got["framing"] == "chunked" and r["version"] == "1.0":
+                # RFC 7230 3.3.1: no Transfer-Encoding unless the request indicates HTTP/1.1; a 1.0 client cannot delimit it
+                problem = ("framing-chunked-to-http10", "response %d to an HTTP/1.0 request uses chunked transfer coding" % j, j)
+                break
             wstatus = int(r["status"].split()[0])
             if got["status"] != wstatus:
                 problem = ("response-status", "response %d has status %d, application said %s (responses out of order?)" % (j, got["status"], r["status"]))
